@@ -5,6 +5,9 @@
  handleLog            exactly one record goes to the front end iff the filter passes, none otherwise.
  updateTimestampStr   representation invariant "the cached string is the string of the cached second" (ghost: the second the string
                       stands for); afterwards both are the second of THIS record, whatever second was formatted before - later ones included.
+ setLevel/unsetLevel  the threshold in force for a module afterwards is the one given (default threshold for the empty name), unsetLevel removes
+                      it; guarded-by: every read or write of modules_level_ / default_level_ in the unit holds the sink lock - filter()
+                      runs on every logging thread [found: unsetLevel erased without the lock - fixed 19ed8d9].
  enable / disable     enable: the sink is made ready (onEnable) BEFORE it is registered with the log front end; idempotent.  disable: it is
                       unregistered first - no new record can arrive - and only then drained and shut down (onDisable), so everything
                       logged before disable() went in before the drain.
@@ -97,7 +100,50 @@ UNITS = [
 ]
 def native_replay(u, t, o, w, workdir):
     import replay as rp
-    if t.id != 'updateTimestampStr': return None
     L = '/repo/_build/modules'
+    if 'v_guarded__' in getattr(o, 'name', str(o)):          # a failed guarded-by obligation is replayed under ThreadSanitizer: one thread logs, one edits the table
+        return rp.tsan_attempt('sink_unset_level', ['modules/log/sink.cpp'], os.path.join(workdir, 'replay'), extra=['%s/util/libtbox_util.a' % L, '%s/base/libtbox_base.a' % L])
+    if t.id != 'updateTimestampStr': return None
     libs = ['%s/%s/libtbox_%s.a' % (L, x, x) for x in ('log', 'util', 'event', 'base')] + ['-ldl']
     return rp.attempt('sink_timestamp', ['modules/log/sink.cpp'], os.path.join(workdir, 'replay'), [('scenario', [])], extra=libs)
+
+# --- the filter configuration: written by setLevel / unsetLevel (the application's thread), read by filter() on every logging thread ---
+R.update({'log_Sink_setLevel__int': 'Sink_setDefaultLevel', 'log_Sink_setLevel__Kstd_stringr_int': 'Sink_setModuleLevel', 'log_Sink_unsetLevel': 'Sink_unsetLevel'})
+EXTERN_L = '\n'.join(EXTERN.strip().split('\n')[:3]) + r"""
+/* the table cell of THIS module; it exists from here on */
+int *v_map__index(struct v_map *mp, struct v_str *k) __CPROVER_requires(mp == &g_s->modules_level_ && k == g_mod) __CPROVER_assigns(g_found) __CPROVER_ensures(__CPROVER_return_value == &g_found_level && g_found == 1);
+/* std::map::emplace inserts only when the key is absent: an existing threshold stays what it was (a setter written with it does not set) */
+void v_map__emplace(struct v_map *mp, struct v_str *k, int v) __CPROVER_requires(mp == &g_s->modules_level_ && k == g_mod) __CPROVER_assigns(g_found, g_found_level)
+  __CPROVER_ensures(g_found == 1 && g_found_level == (T(__CPROVER_old(g_found)) ? __CPROVER_old(g_found_level) : v));
+size_t v_map__erase(struct v_map *mp, struct v_str *k) __CPROVER_requires(mp == &g_s->modules_level_ && k == g_mod) __CPROVER_assigns(g_found) __CPROVER_ensures(g_found == 0);
+"""
+LOCKED = 'B->lock_.held > 0'
+SPEC_L = {('prelude_early',): '#include <time.h>\n', ('prelude',): PRELUDE + 'static struct v_str *g_mod;\n', ('after_protos',): EXTERN_L,
+    # every read or write of the filter configuration, anywhere in the unit, happens with the sink lock held: filter() runs on every logging thread
+    ('guarded_by', 'log_Sink'): {'modules_level_': LOCKED, 'default_level_': LOCKED},
+    ('contract', 'Sink_setDefaultLevel'): r"""
+__CPROVER_requires(__CPROVER_is_fresh(self, sizeof(*self)) && self->lock_.held == 0)
+__CPROVER_assigns(g_s, v_noblock_mutex, self->lock_.held, self->default_level_)
+__CPROVER_ensures(self->lock_.held == 0 && self->default_level_ == level)
+""",
+    ('ghost', 'Sink_setDefaultLevel', 'entry'): 'g_s = self; v_noblock_mutex = 0;',
+    ('contract', 'Sink_setModuleLevel'): r"""
+__CPROVER_requires(__CPROVER_is_fresh(self, sizeof(*self)) && __CPROVER_is_fresh(module, sizeof(*module)) && self->lock_.held == 0 && (g_found == 0 || g_found == 1))
+__CPROVER_assigns(g_s, g_mod, g_found, g_found_level, v_noblock_mutex, self->lock_.held, self->default_level_)
+__CPROVER_ensures(self->lock_.held == 0)
+/* afterwards the threshold in force for this module is `level` - whether or not the module had one before; the empty name means the default threshold */
+__CPROVER_ensures(module->size == 0 ? (self->default_level_ == level && T(g_found) == T(__CPROVER_old(g_found)) && g_found_level == __CPROVER_old(g_found_level))
+                                    : (T(g_found) && g_found_level == level && self->default_level_ == __CPROVER_old(self->default_level_)))
+""",
+    ('ghost', 'Sink_setModuleLevel', 'entry'): 'g_s = self; g_mod = module; v_noblock_mutex = 0;',
+    ('contract', 'Sink_unsetLevel'): r"""
+__CPROVER_requires(__CPROVER_is_fresh(self, sizeof(*self)) && __CPROVER_is_fresh(module, sizeof(*module)) && self->lock_.held == 0 && (g_found == 0 || g_found == 1))
+__CPROVER_assigns(g_s, g_mod, g_found, v_noblock_mutex, self->lock_.held)
+__CPROVER_ensures(self->lock_.held == 0 && !T(g_found) && self->default_level_ == __CPROVER_old(self->default_level_))        /* the module falls back to the default threshold */
+""",
+    ('ghost', 'Sink_unsetLevel', 'entry'): 'g_s = self; g_mod = module; v_noblock_mutex = 0;',
+}
+UNITS.append(U('sink_levels', SPEC_L, [(N + 'setLevel', 'int'), (N + 'setLevel', 'const std::string &, int'), N + 'unsetLevel', N + 'filter'], [
+    Target('setLevel_default', H('  Sink *s; int l; Sink_setDefaultLevel(s, l);'), enforce='Sink_setDefaultLevel', clause='setLevel(level): the default threshold is level; written under the sink lock'),
+    Target('setLevel_module', H('  Sink *s; int l; struct v_str *m; Sink_setModuleLevel(s, m, l);'), enforce='Sink_setModuleLevel', replace=['v_map__index', 'v_map__emplace'], clause='setLevel(module, level): afterwards the threshold of the module is level, whether or not it had one; table written under the sink lock'),
+    Target('unsetLevel', H('  Sink *s; struct v_str *m; Sink_unsetLevel(s, m);'), enforce='Sink_unsetLevel', replace=['v_map__erase'], clause='unsetLevel(module): the module has no threshold of its own afterwards; table written under the sink lock (filter() reads it on every logging thread)')]))
